@@ -113,7 +113,7 @@ class Respeller:
                     self.used.add("(rN)->@rN")
                     return "@" + m.group(1)
                 return m.group(0)
-            code2 = re.sub(r"(?<![\w)>$.@\-+*/&|^!%~])\(\s*(r[0-7]|sp|pc|%[0-7])\s*\)(?!\s*\+)", paren_to_at, code, flags=re.I)
+            code2 = re.sub(r"(?<![\w)>$.@\-+*/&|^!%~:\\])\(\s*(r[0-7]|sp|pc|%[0-7])\s*\)(?!\s*\+)", paren_to_at, code, flags=re.I)
 
             def at_to_paren(m):
                 if rng.random() < 0.5:
